@@ -16,7 +16,7 @@ from .sorts import NONE, TBool, TInt, TNone, TReal, TStr, TVal, V, mk_bool, mk_i
 BUILTINS = {
     "len", "int", "str", "float", "bool", "min", "max", "abs", "any", "all", "sum", "isinstance", "list", "set", "dict",
     "tuple", "sorted", "zip", "enumerate", "range", "next", "iter", "cast", "type", "id", "repr", "round", "frozenset",
-    "reversed", "callable", "hasattr", "print", "parses_int",
+    "reversed", "callable", "hasattr", "print", "parses_int", "cmp_to_key",
 }
 
 
@@ -734,6 +734,9 @@ def call_special(it, n):
         # allocated by this call/function: not allocated in the old state, allocated now
         v = it.ev(n.args[0])
         return mk_bool(z3.And(z3.Not(z3.Select(it.old_st.alloc, v.t)), z3.Select(it.st.alloc, v.t)))
+    if name == "allocated":
+        v = it.ev(n.args[0])
+        return mk_bool(z3.Select(it.st.alloc, v.t))
     if name == "allocated_before":
         v = it.ev(n.args[0])
         return mk_bool(z3.Select(it.old_st.alloc, v.t))
@@ -746,7 +749,12 @@ def call_special(it, n):
         a, b = it.unify(it.ev(n.args[1]), it.ev(n.args[2]))
         return a.sort.ite(c, a, b)
     if name == "cast":
-        return it.ev(n.args[1])
+        v = it.ev(n.args[1])
+        t = n.args[0]
+        tn = t.id if isinstance(t, ast.Name) else (t.value if isinstance(t, ast.Constant) and isinstance(t.value, str) else None)
+        if tn in it.m.classes and isinstance(v, V) and isinstance(v.sort, S.TRef):
+            return V(S.TRef(tn), v.terms)  # static retyping of a reference (typing.cast has no run-time effect)
+        return v
     if name == "assume" and it.fs is not None and it.fs.kind == "lemma":
         raise OutOfSubset("assume is not allowed")
     if name in ("any", "all") and len(n.args) == 1 and isinstance(n.args[0], ast.GeneratorExp):
@@ -904,6 +912,8 @@ def call_builtin(it, name, args, kwargs, node):
                 return mk_int(z3.StrToInt(a.t))
             return mk_int(it.eng.ufunc("str_toint", S.StrAbs, z3.IntSort())(a.t))
         raise OutOfSubset(f"int() of {a.sort}")
+    if name == "cmp_to_key":
+        return ("cmp_to_key", args[0])
     if name == "parses_int":
         return mk_bool(it.eng.ufunc("str_isdec", TStr.zsort, z3.BoolSort())(args[0].t))
     if name == "str":
@@ -1036,11 +1046,22 @@ def sorted_(it, args, kwargs, node):
                 return f(ka.t, kb.t)
 
         saved = it.spec
+        saved_pre = it.spec_pre
+        it.spec_pre = [] if not saved else saved_pre
         it.spec = True
+        it.qdepth += 1
         try:
             body = le(so.at(res, i), so.at(res, j))
         finally:
             it.spec = saved
+            it.qdepth -= 1
+            pres, it.spec_pre = it.spec_pre, saved_pre
+        if not saved and pres:
+            # the comparator / key function is called on arbitrary pairs of elements: its preconditions must hold for all of them
+            it.callsite_counter["sortpre"] = it.callsite_counter.get("sortpre", 0) + 1
+            it.oblige(f"pre@sort-key#{it.callsite_counter['sortpre']}",
+                      z3.ForAll([i, j], z3.Implies(z3.And(i >= 0, i < n, j >= 0, j < n), z3.And(*pres))),
+                      {"clause": "preconditions of the calls inside the sort key / comparator hold for every pair of elements"})
         st.assume(z3.ForAll([i, j], z3.Implies(z3.And(i >= 0, i < j, j < n), body)))
     else:
         if so.elem in (TInt, TReal):
